@@ -125,9 +125,10 @@ Section Invariant.
   Proof. apply nodup_lseid_unique. Qed.
 
   (* end_session over a member of association ci *)
-  Lemma world_end_session w ci s a' cmds c' :
+  (* the datapath effect of ending session s of association ci, whatever else the handler does to the agent *)
+  Lemma world_end_session w ci s a' c' :
     envelope w -> image_ok w -> In s (c_sessions (get_conn ci (w_conns w))) ->
-    end_session (w_agent w) s = (a', cmds) ->
+    a_tables a' = apply_cmds (del_cmds (view (s_pdrs s)) (view (s_fars s)) (view (s_qers s))) (a_tables (w_agent w)) ->
     c_sessions c' = del_session (s_lseid s) (c_sessions (get_conn ci (w_conns w))) ->
     image_ok (World a' (put_conn ci c' (w_conns w))).
   Proof.
@@ -141,8 +142,7 @@ Section Invariant.
     { intros x. unfold all_sessions. cbn [w_conns]. rewrite (in_sessions_split ci) by (apply put_keys_nodup; exact Ek).
       rewrite get_put, others_put, Hc, in_app_iff. tauto. }
     (* reuse the step lemma with the uniqueness property instead of NoDup *)
-    unfold end_session in He. destruct (release_ips (a_pool (w_agent w)) (s_lseid s) (view (s_pdrs s))) as [pl ok].
-    inversion He; subst; clear He. cbn [a_tables].
+    rewrite He.
     apply image_del with (gone := session_cmds burst s).
     - eapply is_image_ext; [eapply image_cong; [exact Hsplit|exact Hi]|]. intros x. rewrite in_app_iff, !in_image. split.
       + intros (y & Hy & Hxy). apply in_app_or in Hy. destruct Hy as [Hy|Hy].
@@ -167,5 +167,210 @@ Section Invariant.
           (* s would be both in association ci and in another one: its SEID would occur twice *)
           exfalso. apply (own_not_other ci l s Ek El Hin Hs2). }
       apply (Ea s s2 A1 A2 A3); assumption.
+  Qed.
+
+  Definition sdel (s : session) : list cmd := del_cmds (view (s_pdrs s)) (view (s_fars s)) (view (s_qers s)).
+
+  Lemma apply_cmds_app a b t : apply_cmds (a ++ b) t = apply_cmds b (apply_cmds a t).
+  Proof. unfold apply_cmds. apply fold_left_app. Qed.
+
+  Lemma shutdown_tables : forall ss a a' cmds,
+    shutdown_sessions a ss = (a', cmds) -> a_tables a' = apply_cmds (flat_map sdel ss) (a_tables a).
+  Proof.
+    induction ss as [|s ss IH]; intros a a' cmds H; cbn [shutdown_sessions flat_map] in *; [inversion H; reflexivity|].
+    destruct (end_session a s) as [a1 c1] eqn:E1. destruct (shutdown_sessions a1 ss) as [a2 c2] eqn:E2. inversion H; subst; clear H.
+    rewrite apply_cmds_app, (IH _ _ _ E2). f_equal.
+    unfold end_session in E1. destruct (release_ips (a_pool a) (s_lseid s) (view (s_pdrs s))) as [pl ok]. inversion E1; reflexivity.
+  Qed.
+
+  Lemma same_targets_flat ss : same_targets (flat_map sdel ss) (image burst ss).
+  Proof.
+    split.
+    - intros d Hd. apply in_flat_map in Hd. destruct Hd as (s & Hs & Hd).
+      destruct (same_targets_session burst s) as [T1 _]. destruct (T1 d Hd) as (c & Hc & A & B).
+      exists c. split; [apply in_image; exists s; split; assumption|split; assumption].
+    - intros c Hc. apply in_image in Hc. destruct Hc as (s & Hs & Hc).
+      destruct (same_targets_session burst s) as [_ T2]. destruct (T2 c Hc) as (d & Hd & A & B).
+      exists d. split; [apply in_flat_map; exists s; split; assumption|split; assumption].
+  Qed.
+
+  Lemma world_shutdown w ci a' cmds :
+    envelope w -> image_ok w ->
+    shutdown_sessions (w_agent w) (c_sessions (get_conn ci (w_conns w))) = (a', cmds) ->
+    image_ok (World a' (drop_conn ci (w_conns w))).
+  Proof.
+    intros E Hi Hs. destruct E as [Ek El Ew Ea]. unfold image_ok in *. cbn [w_agent w_conns] in *.
+    set (l := w_conns w) in *. set (c := get_conn ci l) in *.
+    assert (forall x, In x (all_sessions w) <-> In x (c_sessions c ++ others ci l)) as Hsplit.
+    { intros x. unfold all_sessions. rewrite in_app_iff. apply in_sessions_split. exact Ek. }
+    apply image_cong with (ss := others ci l).
+    { intros x. unfold all_sessions. cbn [w_conns]. symmetry. apply drop_sessions. }
+    rewrite (shutdown_tables _ _ _ _ Hs).
+    apply image_del with (gone := image burst (c_sessions c)).
+    - eapply is_image_ext; [eapply image_cong; [exact Hsplit|exact Hi]|]. intros x.
+      rewrite in_app_iff, !in_image. split.
+      + intros (y & Hy & Hxy). apply in_app_or in Hy. destruct Hy as [Hy|Hy]; [left|right]; exists y; split; assumption.
+      + intros [(y & Hy & Hxy)|(y & Hy & Hxy)]; exists y; (split; [apply in_or_app; auto|exact Hxy]).
+    - apply same_targets_flat.
+    - intros x Hx. apply in_flat_map in Hx. destruct Hx as (s & _ & Hx). eapply del_cmds_are_deletes. exact Hx.
+    - intros x y Hx Hy. apply in_image in Hx. apply in_image in Hy. destruct Hx as (s1 & H1 & Hx). destruct Hy as (s2 & H2 & Hy).
+      assert (In s1 (all_sessions w)) as A1 by (apply Hsplit; apply in_or_app; left; exact H1).
+      assert (In s2 (all_sessions w)) as A2 by (apply Hsplit; apply in_or_app; right; exact H2).
+      apply (Ea s1 s2 A1 A2); try assumption.
+      intros Heq. assert (s1 = s2) as <- by (apply (uniq_of_nodup (all_sessions w)); auto).
+      exact (own_not_other ci l s1 Ek El H1 H2).
+  Qed.
+
+  (* a step that changes neither the tables nor the session list of association ci *)
+  Lemma world_unchanged w ci a' c' :
+    envelope w -> image_ok w -> a_tables a' = a_tables (w_agent w) ->
+    c_sessions c' = c_sessions (get_conn ci (w_conns w)) ->
+    image_ok (World a' (put_conn ci c' (w_conns w))).
+  Proof.
+    intros E Hi Ht Hc. destruct E as [Ek _ _ _]. unfold image_ok in *. cbn [w_agent w_conns] in *. rewrite Ht.
+    eapply image_cong; [|exact Hi]. intros x. unfold all_sessions. cbn [w_conns].
+    rewrite (in_sessions_split ci (w_conns w)) by exact Ek.
+    rewrite (in_sessions_split ci (put_conn ci c' (w_conns w))) by (apply put_keys_nodup; exact Ek).
+    rewrite get_put, others_put, Hc. tauto.
+  Qed.
+
+  (* accepted establishment on association ci; the envelope is needed of the state AFTER the step *)
+  Lemma world_establish w ci nid cpf pdrs fars qers draws a' c' rseid n l cr cmds ms sd :
+    envelope w -> envelope (World a' (put_conn ci c' (w_conns w))) -> image_ok w ->
+    handle_est burst (w_agent w) (get_conn ci (w_conns w)) nid cpf pdrs fars qers draws
+      = Done (a', c', Out (Some (REst rseid CAUSE_OK n (Some l) cr)) cmds ms sd) ->
+    image_ok (World a' (put_conn ci c' (w_conns w))).
+  Proof.
+    intros E E' Hi H. destruct E as [Ek El Ew Ea]. destruct E' as [Ek' El' Ew' Ea'].
+    unfold image_ok in *. cbn [w_agent w_conns] in *.
+    set (lc := w_conns w) in *. set (c := get_conn ci lc) in *.
+    destruct (est_accepted burst _ _ _ _ _ _ _ _ _ _ _ _ _ _ _ _ _ H) as (l' & s & Hup & Hnz & _ & Hnin & Hf & Hl & _).
+    assert (l' = l) as El2 by (inversion Hup; reflexivity). rewrite El2 in *. clear El2 Hup.
+    assert (forall x, In x (all_sessions w) <-> In x (c_sessions c ++ others ci lc)) as Hsplit.
+    { intros x. unfold all_sessions. rewrite in_app_iff. apply in_sessions_split. exact Ek. }
+    assert (forall x, In x (all_sessions (World a' (put_conn ci c' lc))) <-> In x (c_sessions c' ++ others ci lc)) as Hsplit'.
+    { intros x. unfold all_sessions. cbn [w_conns]. rewrite in_app_iff, (in_sessions_split ci) by exact Ek'. rewrite get_put, others_put. tauto. }
+    apply image_cong with (ss := c_sessions c' ++ others ci lc); [intros x; symmetry; apply Hsplit'|].
+    edestruct (est_accepted_store burst) as (Hs & _ & _); [exact H|exact Hf|].
+    eapply est_image_step; [exact H|exact Hf| | |].
+    - eapply image_cong; [exact Hsplit|exact Hi].
+    - apply Ew'. apply Hsplit'. rewrite Hs. left. reflexivity.
+    - intros x y Hx Hy. apply in_image in Hy. destruct Hy as (s2 & H2 & Hy).
+      assert (In s (all_sessions (World a' (put_conn ci c' lc)))) as A1 by (apply Hsplit'; rewrite Hs; left; reflexivity).
+      assert (In s2 (all_sessions (World a' (put_conn ci c' lc)))) as A2.
+      { apply Hsplit'. rewrite Hs. apply in_app_or in H2. destruct H2 as [H2|H2]; [right; apply in_or_app; left; exact H2|right; apply in_or_app; right; exact H2]. }
+      apply (Ea' s s2 A1 A2); try assumption.
+      (* the new local SEID differs from every other one: the SEIDs of the new state are duplicate free *)
+      intros Heq. unfold all_sessions in El'. cbn [w_conns] in El'.
+      assert (s = s2) as <- by (apply (uniq_of_nodup _ s s2 El'); auto).
+      apply in_app_or in H2. destruct H2 as [H2|H2].
+      + apply Hnin. rewrite <- Hl. apply in_map. exact H2.
+      + apply (own_not_other ci (put_conn ci c' lc) s Ek' El'); [rewrite get_put, Hs; left; reflexivity|rewrite others_put; exact H2].
+  Qed.
+
+  (* ---- one event *)
+  Definition is_mod (m : msg) : bool := match m with MMod _ _ _ _ _ _ _ _ _ _ _ => true | _ => false end.
+  Definition clean_tables (t : tables) : bool :=
+    match t with Tables [] [] [] [] => true | _ => false end.
+  (* the events of the partial theorem: no Session Modification; a restart begins with the cleared datapath *)
+  Definition ev_ok (e : wevent) : bool :=
+    match e with
+    | WMsg _ _ m _ => negb (is_mod m)
+    | WTeardown _ => true
+    | WRestart a0 => clean_tables (a_tables a0)
+    end.
+  (* the allocation flag of a stored PDR is backed by the pool (true of every reachable state; assumed here) *)
+  Definition alloc_backed (w : world) : Prop :=
+    forall s, In s (all_sessions w) -> existsb (fun p => p_alloc p && (p_iface p =? CORE)) (view (s_pdrs s)) = true ->
+              pool_holds (a_pool (w_agent w)) (s_lseid s) = true.
+
+  Lemma release_ok pl lseid ps : (existsb (fun p => p_alloc p && (p_iface p =? CORE)) ps = true -> pool_holds pl lseid = true) ->
+    snd (release_ips pl lseid ps) = true.
+  Proof.
+    unfold release_ips, pool_holds. destruct (existsb _ ps); [|reflexivity]. intros H. specialize (H eq_refl).
+    destruct pl as [po|]; [|discriminate]. unfold dealloc. destruct (lookup lseid (inv po)); [reflexivity|discriminate].
+  Qed.
+
+  Lemma image_empty : is_image no_tables [].
+  Proof. split; [intros c []|]. intros m k _. destruct m; reflexivity. Qed.
+
+  Lemma wstep_image w e w' o :
+    envelope w -> alloc_backed w -> envelope w' -> image_ok w -> ev_ok e = true ->
+    wstep burst w e = Done (w', o) -> image_ok w'.
+  Proof.
+    intros E Hab E' Hi Hok H. destruct e as [ci connected m draws|ci|a0]; cbn [wstep] in H.
+    - destruct (handle burst (w_agent w) (get_conn ci (w_conns w)) connected m draws) as [[[a' c'] res]|] eqn:Hh; [|discriminate].
+      inversion H; subst w' o; clear H. cbn [ev_ok] in Hok.
+      assert (In_conn : forall s, In s (c_sessions (get_conn ci (w_conns w))) -> In s (all_sessions w)).
+      { intros s Hs. unfold all_sessions. apply (in_sessions_split ci); [apply E|left; exact Hs]. }
+      pose proof Hh as Hh0.
+      destruct m; cbn [handle is_mod negb] in Hh, Hok; try discriminate.
+      + inversion Hh; subst. cbn [o_shutdown just]. apply world_unchanged; auto.
+      + split_all Hh; inversion Hh; subst; cbn [o_shutdown just no_out]; apply world_unchanged; auto.
+      + destruct (do_shutdown (w_agent w) (get_conn ci (w_conns w))) as [[a1 c1] cm] eqn:Hd. inversion Hh; subst. cbn [o_shutdown].
+        unfold do_shutdown in Hd. destruct (shutdown_sessions (w_agent w) (c_sessions (get_conn ci (w_conns w)))) as [a2 cm2] eqn:Hs.
+        inversion Hd; subst. eapply world_shutdown; eauto.
+      + split_all Hh; inversion Hh; subst; cbn [o_shutdown just]; apply world_unchanged; auto.
+      + destruct res as [r cmds ms sd]. 
+        destruct r as [r|].
+        2:{ pose proof (handle_reply_matches burst _ _ _ _ _ _ _ _ Hh0) as Hm. cbn in Hm. destruct Hm as (? & ? & ? & ? & ? & Hm). discriminate. }
+        destruct r as [| | | |sx cause nx ux crx| |];
+          try (pose proof (handle_reply_matches burst _ _ _ _ _ _ _ _ Hh0) as Hm; cbn in Hm; destruct Hm as (? & ? & ? & ? & ? & Hm); discriminate).
+        destruct (N.eq_dec cause CAUSE_OK) as [->|Hne].
+        * destruct (est_accepted burst _ _ _ _ _ _ _ _ _ _ _ _ _ _ _ _ _ Hh) as (l & s & -> & _ & _ & _ & _ & _ & _ & _ & _ & _ & -> & _).
+          cbn [o_shutdown] in *. eapply world_establish; eauto.
+        * edestruct (est_rejected burst) as (_ & Ht & Hc & _); [exact Hh| |].
+          { intros s0 n0 u0 cr0 Hr. cbn [o_reply] in Hr. inversion Hr. contradiction. }
+          assert (sd = false) as ->.
+          { clear -Hh. unfold handle_est in Hh. split_all Hh; inversion Hh; reflexivity. }
+          cbn [o_shutdown]. subst c'. apply world_unchanged; auto.
+      + unfold handle_del in Hh. destruct (find_session seid (c_sessions (get_conn ci (w_conns w)))) as [s|] eqn:Hf.
+        2:{ inversion Hh; subst. cbn [o_shutdown just]. apply world_unchanged; auto. }
+        pose proof (find_lseid _ _ _ Hf) as Hl. pose proof (find_session_in _ _ _ Hf) as Hin.
+        subst seid.
+        pose proof (release_ok (a_pool (w_agent w)) (s_lseid s) (view (s_pdrs s))) as Hr.
+        specialize (Hr (Hab s (In_conn s Hin))).
+        destruct (release_ips (a_pool (w_agent w)) (s_lseid s) (view (s_pdrs s))) as [pl ok]. cbn [snd] in Hr. subst ok.
+        inversion Hh; subst. cbn [o_shutdown]. apply (world_end_session w ci s); auto.
+      + unfold handle_report_rsp in Hh.
+        destruct cause as [[|cz]|]; try (inversion Hh; subst; cbn [o_shutdown no_out]; apply world_unchanged; auto; fail).
+        destruct (cz =? CAUSE_NOTFOUND); [|inversion Hh; subst; cbn [o_shutdown no_out]; apply world_unchanged; auto].
+        destruct (find_session seid (c_sessions (get_conn ci (w_conns w)))) as [s|] eqn:Hf;
+          [|inversion Hh; subst; cbn [o_shutdown no_out]; apply world_unchanged; auto].
+        pose proof (find_lseid _ _ _ Hf) as Hl. pose proof (find_session_in _ _ _ Hf) as Hin.
+        destruct (end_session (w_agent w) s) as [a1 cm] eqn:He. inversion Hh; subst. cbn [o_shutdown].
+        apply (world_end_session w ci s); auto.
+        unfold end_session in He. destruct (release_ips _ _ _) as [pl ok]. inversion He; reflexivity.
+      + inversion Hh; subst. cbn [o_shutdown no_out]. apply world_unchanged; auto.
+      + inversion Hh; subst. cbn [o_shutdown no_out]. apply world_unchanged; auto.
+    - destruct (do_shutdown (w_agent w) (get_conn ci (w_conns w))) as [[a1 c1] cm] eqn:Hd. inversion H; subst.
+      unfold do_shutdown in Hd. destruct (shutdown_sessions (w_agent w) (c_sessions (get_conn ci (w_conns w)))) as [a2 cm2] eqn:Hs.
+      inversion Hd; subst. eapply world_shutdown; eauto.
+    - inversion H; subst. unfold image_ok. cbn [w_agent w_conns all_sessions flat_map image]. cbn [ev_ok] in Hok.
+      destruct (a_tables a0) as [[|? ?] [|? ?] [|? ?] [|? ?]]; try discriminate. apply image_empty.
+  Qed.
+
+  (* ---- histories: the image invariant holds along every history of establishments, deletions, releases,
+     teardowns, report responses, restarts and node-level messages (no Session Modification), as long as every
+     state the history goes through is inside the envelope *)
+  Fixpoint states (w : world) (es : list wevent) : list world :=
+    match es with
+    | [] => [w]
+    | e :: r => w :: match wstep burst w e with Done (w', _) => states w' r | Crash _ => [] end
+    end.
+
+  Theorem image_invariant : forall es w w',
+    (forall x, In x (states w es) -> envelope x /\ alloc_backed x) ->
+    forallb ev_ok es = true -> image_ok w -> wrun burst w es = Done w' -> image_ok w'.
+  Proof.
+    induction es as [|e es IH]; intros w w' Henv Hok Hi Hr; cbn [wrun states forallb] in *.
+    - inversion Hr; subst. exact Hi.
+    - apply andb_true_iff in Hok. destruct Hok as [Hok1 Hok2].
+      destruct (wstep burst w e) as [[w1 o]|] eqn:Hs; [|discriminate].
+      assert (In w1 (states w1 es)) as Hin1 by (destruct es; cbn; auto).
+      destruct (Henv w (or_introl eq_refl)) as [E Hab].
+      destruct (Henv w1 (or_intror Hin1)) as [E1 _].
+      apply (IH w1 w'); [intros x Hx; apply Henv; right; exact Hx|exact Hok2| |exact Hr].
+      eapply (wstep_image w e w1 o); eauto.
   Qed.
 End Invariant.
